@@ -95,6 +95,16 @@ BUILT = {
          "Hundreds of thousands (quick) to millions (thorough) of Newton/secant/newton_polynomial/muller/steffensen runs against constructed roots, including starts on the root and at the origin, affine systems, exactly singular integer systems and exhausted caps.",
          "Start regions are the rigorous Newton-Kantorovich / basin radii; muller's residual bound is asserted only for starts near a root.",
          "DESIGN.md §4 C08"),
+ "C14": ("exploration",
+         "ground-truth monitor: returned roots against the constructing roots refined in double-double arithmetic (count, residual, one-to-one matching, conjugate closure); orthogonal zeros against Jacobi-matrix eigenvalues polished on the exact recurrences",
+         "Tens of thousands (quick) to 840 000 (thorough) polynomials built from separated roots, incl. both flavours of sparse x^n - c and products of them, pinned Laguerre-cycle anchors, and every Legendre/Hermite (n <= 16) and Laguerre (n <= 12) zero set over a tolerance ladder.",
+         "Tolerances from twice the evaluation noise upwards; cases whose double-double refinement does not converge are inconclusive.",
+         "DESIGN.md §4 C14"),
+ "C17": ("exploration",
+         "ground-truth monitor: returned parameters against harness-side least-squares optima (SSR excess and parameter bounds), model-call log with hard budget (termination), and a first-step history signature that attributes curve_fit failures to the one open known finding",
+         "Hundreds (quick) to tens of thousands (thorough) of fits per routine over linear-in-parameter and non-linear model families, noise-free and noisy, plus pinned Levenberg-Marquardt loop anchors; linear_fit against double-double normal equations; invalid-input enumeration. curve_fit's sum-Jacobian defect (D31) is an open known finding: only violations whose observed first LM step equals the sum-Jacobian prediction are attributed to it.",
+         "SSR bound 4 max(5,g) tol with g from the damped iteration's contraction factor; designs with cond(J) <= 1e3.",
+         "DESIGN.md §4 C17"),
 }
 
 PENDING_REASON = "check not built yet in this commit (runtime monitor designed in DESIGN.md §4; will be claimed when its harness module lands)"
